@@ -2,7 +2,6 @@ SPECIFICATION Spec
 CONSTANTS
   Chunks = 2
   MaxVer = 4
-  Deviation = "ignore_write_error"
-INVARIANTS Inv_FileIsCompleteSnapshot
+  Deviation = "drop_untouched"
 PROPERTIES Act_ReloadEqualsLastSave
 CHECK_DEADLOCK FALSE
